@@ -1,3 +1,63 @@
-From TT Require Import Lib.BytesL.
-Theorem placeholder : True. Proof. exact I. Qed.
-Print Assumptions placeholder.
+(* C02 — TCP tunnel relays the byte stream exactly, both ways.
+   Statements about the timed model of pipe.rs (Model/Pipe.v) for EVERY pair of endpoint scripts:
+   all chunkings, partial-acceptance patterns, arrival / readiness instants (hence every
+   interleaving and every idle-timer restart) and every position of a read, write, wait, eof or
+   flush failure. *)
+From Coq Require Import List NArith Bool.
+From TT Require Import Lib.BytesL Model.Pipe Generated.PipeFacts Proofs.PipeProofs.
+Import ListNotations.
+Open Scope N_scope.
+
+Theorem relay_exact :
+  forall f T el er res s,
+    duplex f T el er = (res, s) ->
+    (* whenever and however the tunnel stops: no loss inside the delivered prefix, no duplication,
+       no reordering; receive-window credit = metrics = bytes actually forwarded *)
+    (forall p, p = pl s \/ p = pr s ->
+       (exists rest, delivered p ++ rest = read_log p)
+       /\ consumed p = lenN (delivered p) /\ metric p = lenN (delivered p))
+    (* clean end: every byte read was delivered, then end-of-stream passed on and flushed *)
+    /\ (res = DOk -> forall p, p = pl s \/ p = pr s ->
+          delivered p = read_log p /\ 1 <= eof_calls p /\ 1 <= flush_done p)
+    (* a failure on either side tears the whole tunnel down *)
+    /\ ((ph (pl s) = PFailed \/ ph (pr s) = PFailed) <-> res = DError).
+Proof. exact relay_exact_proof. Qed.
+Print Assumptions relay_exact.
+
+(* the invariant behind it holds after every single event, not only at the end *)
+Theorem invariant_after_every_event :
+  forall f T s, DInv T s -> DInv T (out_state (dstep f T s)).
+Proof. exact dstep_inv. Qed.
+Print Assumptions invariant_after_every_event.
+
+(* cancelling the copy loops (idle-timer restart) loses nothing: the pending chunk is kept *)
+Theorem restart_preserves :
+  forall f t p, Inv p -> iter_start p <= t ->
+    Inv (restart f t p) /\ pending (restart f t p) = pending p
+    /\ delivered (restart f t p) = delivered p /\ read_log (restart f t p) = read_log p.
+Proof. intros f t p I H. split; [apply Inv_restart; assumption|repeat split]. Qed.
+Print Assumptions restart_preserves.
+
+(* the code still has the modelled shape (regenerated from pipe.rs) *)
+Theorem pipe_code_as_modelled :
+  PIPE_CHUNK_ARM_AS_MODELLED = true /\ PIPE_EOF_ARM_AS_MODELLED = true
+  /\ PIPE_AWAITS_AS_MODELLED = true /\ PIPE_SELECT_AS_MODELLED = true.
+Proof. repeat split; exact eq_refl. Qed.
+Print Assumptions pipe_code_as_modelled.
+
+(* Non-vacuity: partial writes, a restart in the middle, clean end *)
+Example ex_relay :
+  let el := {| reads := [RChunk 10 [1;2;3;4;5]; REof 2500]; writes := [WAccept 2; WAccept 1];
+               waits := [AOk 1200; AOk 1300]; eof_err := false; flushes := [AOk 2500] |} in
+  let er := {| reads := [RChunk 900 [9]; REof 2400]; writes := []; waits := []; eof_err := false;
+               flushes := [AOk 2450] |} in
+  match duplex true 1000 el er with
+  | (DOk, s) => delivered (pl s) = [1;2;3;4;5] /\ delivered (pr s) = [9]
+  | _ => False
+  end.
+Proof. vm_compute. split; reflexivity. Qed.
+Example ex_failure :
+  fst (duplex true 1000
+         {| reads := [RChunk 10 [1;2]]; writes := [WErr]; waits := []; eof_err := false; flushes := [] |}
+         {| reads := [REof 5]; writes := []; waits := []; eof_err := false; flushes := [AOk 6] |}) = DError.
+Proof. vm_compute. reflexivity. Qed.
